@@ -303,7 +303,9 @@ func (p *c20) judge(s Snip, bash, interp snipFrame) (string, string) {
 	// bash checks for a negative exponent even in an operand that && || or ?: does
 	// not evaluate (it checks division by zero only when evaluating). Erroring on
 	// code that is not evaluated is not something the property asks to reproduce.
-	if strings.Contains(s.Src, "** -") && bash.Stderr && !interp.Stderr && strings.ContainsAny(s.Src, "&|?") {
+	if strings.Contains(s.Src, "** -") && bash.Stderr && strings.ContainsAny(s.Src, "&|?") {
+		// (also when interp fails later in the same expression for a reason of its
+		// own: bash stopped before any side effect, interp after some)
 		return mon.OutOfDomain, "negative-exponent-in-a-possibly-unevaluated-operand"
 	}
 	return "", ""
